@@ -86,7 +86,7 @@ func c10(c *Ctx) {
 		c.Violation("R2", "sdk/trace|(*recordingSpan).End|isRecording → endTime store atomic", at(ix.M, end.Pos()), "End does not store endTime")
 	}
 	recv := end.Recv()
-	muKey := varKey(recv) + ".mu"
+	muKey := varKey(recv) + resolvePath(ix.Pkg, "recordingSpan", ".mu")
 	nAtomic := 0
 	var firstRel *GNode
 	for _, x := range g.Nodes {
